@@ -1,5 +1,5 @@
 (* Obligation on /repo/Cargo.lock and /repo/Cargo.toml: the modelled third-party crates are pinned at the versions the model was written against. *)
 From Ctap Require Import Deps Generated.
 
-Lemma generated_deps : deps_hold lock_versions cargo_deps = true.
+Lemma generated_deps : deps_hold repo_lock_present lock_versions harness_lock_versions cargo_deps = true.
 Proof. vm_compute. reflexivity. Qed.
